@@ -181,16 +181,28 @@ def who_may_call(ctx, rep, cfgs=None):
             if counts.get(k, 0) < fl:
                 raise AnalysisBroken('dependency field %s has %d call sites, below the confirmed floor %d' % (k, counts.get(k, 0), fl))
 
-        rep.rule('CALL-3', 'libc allocation/time entry points appear only as address constants stored into the '
-                 'dependency table by polyseed_inject (defaults for NULL entries), never called')
+        rep.rule('CALL-3', 'libc allocation/time entry points appear only as address constants stored into the dependency table (or a local copy of '
+                 'that struct) by code reachable only from polyseed_inject (defaults for NULL entries), never called')
+        setup_only = set(P.reachable_from(SETUP_FUNCS)) - per_seed_reachable(P)
         n3 = 0
         for f in P.defined.values():
             for i in f.all_insts():
-                for k, v in enumerate(i.ops):
-                    if v['k'] == 'f' and v['name'] not in P.defined:
+                vals = list(enumerate(i.ops)) + ([(100 + k, v) for k, (v, _) in enumerate(i.d['incoming'])] if i.op == 'phi' else [])
+                for k, v in vals:
+                    if v['k'] == 'f' and v['name'] not in P.defined and v['name'] not in P.wrapper_defs:
                         n3 += 1
-                        ok = i.op == 'store' and k == 0 and base_name(f.name) == 'polyseed_inject' and \
-                            i.ops[1]['k'] == 'g' and P.globals[i.ops[1]['name']]['ty'] == '%struct.polyseed_dependency'
-                        rep.check(ok, 'address of external %s used only as a dependency-table default' % v['name'],
-                                  i.loc, '%s takes &%s' % (f.name, v['name']), sample={'fn': f.name, 'ext': v['name']})
+                        # the address may only flow as data (stored value, phi/select operand, cast): never passed to a call or compared
+                        ok = (i.op == 'store' and k == 0) or i.op in ('phi', 'select', 'bitcast')
+                        rep.check(ok and f.name in setup_only, 'address of external %s is only moved as data inside setup-only code' % v['name'], i.loc,
+                                  '%s takes &%s' % (f.name, v['name']), sample={'fn': f.name, 'ext': v['name']})
+                if i.op == 'store':
+                    ext = [o for o in pts.of(f, i.ops[0]) if o[0] == 'func' and o[1] not in P.defined and o[1] not in P.wrapper_defs]
+                    if ext:
+                        ok = f.name in setup_only
+                        for o in pts.of(f, i.ops[1]):
+                            if o[0] == 'global': ok = ok and P.globals[o[1]]['ty'] == '%struct.polyseed_dependency'
+                            elif o[0] == 'alloca': ok = ok and P.defined[o[1]].insts[o[2]].d['alloc_ty'] == '%struct.polyseed_dependency'
+                            else: ok = False
+                        rep.check(ok, 'address of external %s is stored only into the dependency table (or a local copy of that struct) by setup-only code' % ext[0][1],
+                                  i.loc, '%s stores &%s' % (f.name, ext[0][1]))
         rep.rules[rep._cur]['instances'] += n3   # expected count may legitimately be zero: no floor
